@@ -190,6 +190,18 @@ pub fn check(v: &View, vd: &mut Verdict) {
     if cross > 0 {
         vd.class("cross_path_or_client_pair");
     }
+    // the fold is only ever reset by a restart that somebody asked for
+    for a in 0..v.actors.len() {
+        if v.actors[a].spawned.is_none() || v.rt[a].origin == Origin::Phantom {
+            continue;
+        }
+        let starts = v.cbs.iter().filter(|c| c.actor == a && c.cb == Cb::Started).count();
+        let reqs = v.client_ops().filter(|o| o.actor == Some(a) && o.what == OpWhat::Restart && o.ok()).count()
+            + v.hist.iter().filter(|e| matches!(&e.kind, EvKind::CtxOp { actor, op: CtxOpKind::Restart, ok: true, .. } if *actor == a)).count();
+        if starts > 1 + reqs {
+            vd.fail("C01/state_reset_without_restart", format!("actor {a}: started() ran {starts} times but only {reqs} restart requests were accepted: the state that later messages see is not the fold of the handled ones"));
+        }
+    }
     // a call that returned Ok must have been handled (fold would not show it otherwise)
     vd.nontrivial = cross > 0;
 }
